@@ -44,7 +44,6 @@ func (P) Describe() harness.Description {
 			"non-trivial = a breaker went Closed->Open->HalfOpen and then closed or re-opened; distinct = hash(config, ops)",
 		Assumptions: []string{
 			"a completion, while half-open, of a request admitted before that passage to half-open may count as the probe's outcome (the implementation's choice: 'driven only by completed requests and time') or be ignored ('successful probes close it'): the reference follows the listeners there, everything else is fixed",
-			"ratio thresholds: a decision within 1e-7 of the threshold (not equal) is ambiguous; the run stops there and is counted boundary_ambiguous",
 			"error-count thresholds are generated integral",
 			"a probe request blocked by a later breaker returns its breaker to Open without re-arming the deadline",
 		},
@@ -63,9 +62,9 @@ func genRule(rng *sim.Rng) model.BreakerRule {
 	switch r.Strategy {
 	case model.SlowRatio:
 		r.MaxRt = []uint64{0, 5, 20, 100}[rng.Intn(4)]
-		r.Threshold = []float64{0, 0.2, 0.5, 1.0, 0.34}[rng.Intn(5)]
+		r.Threshold = []float64{0, 0.2, 0.5, 1.0, 0.34, 1e-9, 0.500000004, 0.199999999}[rng.Intn(8)] // also thresholds a hair off a reachable ratio
 	case model.ErrRatio:
-		r.Threshold = []float64{0, 0.2, 0.5, 1.0, 0.34}[rng.Intn(5)]
+		r.Threshold = []float64{0, 0.2, 0.5, 1.0, 0.34, 1e-9, 0.500000004, 0.199999999}[rng.Intn(8)] // also thresholds a hair off a reachable ratio
 	default:
 		r.Threshold = float64(rng.Range(0, 4))
 		if rng.Chance(0.25) {
